@@ -30,12 +30,13 @@ class FaultRule(memrules.MemRule):
         memrules.MemRule.__init__(self)
         self.root_families = {}
 
-    def keep_event(self, ev):
-        # a failed allocation is part of the state: a path that carries on after one must not be merged into its fault-free twin
-        return ev[0] == 'allocfail'
+    # the property's fault model: exactly one allocation of an operation fails.  The typestate bit 'faulted' (set by the model when an
+    # allocation fails) is part of the state, so a path that carries on after the failure is not merged into its fault-free twin, and
+    # no second failure is explored behind the first
+    single_fault = True
 
-    def event_sig(self, evs):
-        return ('failed',) if evs else ()
+    def keep_event(self, ev):
+        return False
 
 
 def mem_entry(chk, prog, env, model, unit, entry, mkstate, hooks=None, rule=None, label=None):
@@ -222,6 +223,7 @@ def check_jwk(chk, prog, env, model):
             st.mem[(js.loc, 'error')] = Int(1)
             st.mem[(js.loc, 'error_msg#')] = 'nonempty'
         st.trace.append(('allocfail', 'jwk_process_one', node_loc(node)))
+        st.ts['faulted'] = True
         return [(s1, Ref(o)), (st, NULL)]
     for entry, mk in (('jwks_load_strn', lambda st, r, it: [NULL, Term(('text',), ptr=True), Term(('len',))]),
                       ('jwks_load_strn', lambda st, r, it: [Ref(c07.existing_set(st)), Term(('text',), ptr=True), Term(('len',))]),
